@@ -35,8 +35,9 @@ type Task struct {
 	wake     chan struct{}
 	point    string
 	finished bool
-	counted  bool // the current park has been counted by the scheduler
-	pointNth int  // how many times a task had parked at this point when this one did
+	counted  bool  // the current park has been counted by the scheduler
+	pointNth int   // how many times a task had parked at this point when this one did
+	alias    *Task // ad-hoc identity of a goroutine that acts on behalf of this task (publisher seam)
 	// client tasks only
 	cur *OpRecord
 }
@@ -65,6 +66,7 @@ type Generation struct {
 	bootDone               bool
 	bootFail               bool
 	shutdown, shutdownDone bool
+	orderly                bool // the shutdown is the orderly end of the generation, not a fault
 }
 
 type noopLogger struct{}
@@ -232,7 +234,7 @@ func (s *Sched) pick(all []*Task) *Task {
 	}
 	var lastIdx = -1
 	for i, p := range ps {
-		if p == s.last {
+		if p == s.last || (p.alias != nil && p.alias == s.last) {
 			lastIdx = i
 		}
 	}
